@@ -33,6 +33,7 @@ var c19Carves = map[string][][]string{
 	"C19-globstar-descends-symlinked-directories": {{"opt:globstar", "globstar-element", "tree:symlink-to-dir"}},
 	"C19-globstar-next-to-other-wildcard-elements": {{"opt:globstar", "globstar-after-wildcard-element"}},
 	"C19-literal-element-naming-a-dangling-symlink": {{"tree:dangling-link", "literal-element"}},
+	"C19-dotdot-after-a-symlinked-directory":        {{"tree:symlink-to-dir", "dotdot-element"}},
 	"C19-bracket-with-slash-is-not-a-pattern":        {{"bracket-with-slash"}},
 	"C19-character-class-under-nocaseglob":           {{"opt:nocaseglob", "bracket-class"}},
 }
@@ -216,6 +217,12 @@ func c19Word(r *rand.Rand, tags map[string]bool) string {
 		}
 		if e == "**" {
 			tags["globstar-element"] = true
+		}
+		if e != "." && e != ".." && e != `"$PWD"` && !strings.ContainsAny(strings.NewReplacer(`\*`, "", `\?`, "", `\[`, "", `"*"`, "", `'?'`, "", `"[x]"`, "").Replace(e), "*?[(") {
+			tags["literal-element"] = true
+		}
+		if e == ".." {
+			tags["dotdot-element"] = true
 		}
 		if e == "**" && i > 0 {
 			for _, prev := range parts[:i] {
